@@ -697,4 +697,175 @@ theorem C13_fetch_group_topic_offset {σ} (env : Env σ) (group topic : Bytes) :
     · exact Safe.fail _
     · exact Safe.bind (Safe.retrying _ _ (fetchGroupStep_safe env _) _ _ (by omega) (by omega)) fun m => Safe.pure _
 
+/-! ### the consumer and the producer -/
+
+theorem liftClient_safe {σ α} {m : CM σ α} (hm : Safe m) : Safe (liftClient m : CoM σ α) := by
+  intro w
+  unfold liftClient
+  have h := hm ⟨w.world, w.cons.client⟩
+  cases hms : m ⟨w.world, w.cons.client⟩ with
+  | mk w' o => rw [hms] at h; exact h
+
+theorem processResponses_safe {σ} (n : Nat) (resps : List FetchResponse) : Safe (processResponses n resps : CoM σ PollResult) := by
+  intro w
+  obtain ⟨h1, h2⟩ := C13_process_responses_total n resps w
+  cases h : (processResponses n resps w).2 with
+  | ok r => trivial
+  | err e => trivial
+  | panic s => exact absurd h (h1 s)
+  | diverge => exact absurd h h2
+
+/-- **poll**: whatever the brokers answer to the consumer's fetches -/
+theorem C13_poll {σ} (env : Env σ) : Safe (poll env : CoM σ PollResult) := by
+  unfold poll
+  refine Safe.bind (fun _ => trivial) fun c => ?_
+  split
+  · refine Safe.bind (Safe.modify _) fun _ => ?_
+    split
+    · exact Safe.fail _
+    · exact Safe.bind (liftClient_safe (C13_fetch_messages env _)) fun resps => processResponses_safe _ _
+  · exact Safe.bind (liftClient_safe (C13_fetch_messages env _)) fun resps => processResponses_safe _ _
+
+/-- **commit_consumed** -/
+theorem C13_commit_consumed {σ} (env : Env σ) : Safe (commitConsumed env : CoM σ Unit) := by
+  unfold commitConsumed
+  refine Safe.bind (fun _ => trivial) fun c => ?_
+  split
+  · exact Safe.fail _
+  · exact Safe.bind (liftClient_safe (C13_commit_offsets env _ _)) fun _ => Safe.modify _
+
+theorem loadState_ins_safe {σ} (as : List (Bytes × List Int)) :
+    ∀ (tpos : List (Bytes × List (Int × Int))) (acc : List (TP × Consumed)), Safe (loadState.ins as tpos acc : CM σ _) := by
+  intro tpos
+  induction tpos with
+  | nil => intro acc; unfold loadState.ins; exact Safe.pure _
+  | cons x r ih =>
+    intro acc
+    obtain ⟨t, pos⟩ := x
+    unfold loadState.ins
+    split
+    · exact ih _
+    · exact ih _
+
+theorem loadState_go_safe {σ} (as : List (Bytes × List Int)) (maxBytes : Int) (offsets : List (Bytes × List (Int × Int))) :
+    ∀ (subs : List (Bytes × List Int)) (acc : List (TP × FetchState)), Safe (loadState.go as maxBytes offsets subs acc : CM σ _) := by
+  intro subs
+  induction subs with
+  | nil => intro acc; unfold loadState.go; exact Safe.pure _
+  | cons x r ih =>
+    intro acc
+    obtain ⟨t, ps⟩ := x
+    unfold loadState.go
+    split
+    · exact Safe.fail _
+    · exact ih _
+
+theorem loadState_go2_safe {σ} (fallback : Fallback) (as : List (Bytes × List Int)) (consumed : List (TP × Consumed)) (maxBytes : Int)
+    (latest earliest : List (Bytes × List (Int × Int))) :
+    ∀ (xs : List (Bytes × Int)) (acc : List (TP × FetchState)), Safe (loadState.go2 fallback as consumed maxBytes latest earliest xs acc : CM σ _) := by
+  intro xs
+  induction xs with
+  | nil => intro acc; unfold loadState.go2; exact Safe.pure _
+  | cons x r ih =>
+    intro acc
+    obtain ⟨t, p⟩ := x
+    unfold loadState.go2
+    simp only []
+    split
+    · exact ih _
+    · exact Safe.fail _
+
+theorem loadState_safe {σ} (env : Env σ) (group : Bytes) (fallback : Fallback) (as subs : List (Bytes × List Int)) :
+    Safe (loadState env group fallback as subs) := by
+  unfold loadState
+  refine Safe.bind ?_ fun consumed => Safe.bind Safe.getClient fun c => ?_
+  · split
+    · exact Safe.pure _
+    · exact Safe.bind (C13_fetch_group_offsets env _ _) fun tpos => loadState_ins_safe _ _ _
+  · simp only []
+    split
+    · exact Safe.bind (C13_fetch_offsets env _ _) fun o => Safe.bind (loadState_go_safe _ _ _ _ _) fun fo => Safe.pure _
+    · exact Safe.bind (C13_fetch_offsets env _ _) fun l => Safe.bind (C13_fetch_offsets env _ _) fun e =>
+        Safe.bind (loadState_go2_safe _ _ _ _ _ _ _ _) fun fo => Safe.pure _
+
+theorem createState_safe {σ} (env : Env σ) (group : Bytes) (fallback : Fallback) (needMd : Bool) (as : List (Bytes × List Int)) :
+    Safe (createState env group fallback needMd as) := by
+  unfold createState
+  refine Safe.bind ?_ fun _ => Safe.bind Safe.getClient fun c => Safe.bind (Safe.ofExcept _) fun ss => loadState_safe env _ _ _ _
+  split
+  · exact C13_load_metadata_all env
+  · exact Safe.pure _
+
+/-- **Consumer creation** (`Builder::create`: metadata load, partition resolution, committed offsets, start offsets) -/
+theorem C13_consumer_create {σ} (env : Env σ) (b : ConsumerBuilder) : Safe (b.create env) := by
+  intro world
+  unfold ConsumerBuilder.create
+  simp only []
+  split
+  · trivial
+  · split
+    · trivial
+    · split
+      · trivial
+      · trivial
+      · rename_i w s hms
+        exact (Safe.not_panic (createState_safe env _ _ _ _) hms).elim
+      · rename_i w hms
+        exact (Safe.not_diverge (createState_safe env _ _ _ _) hms).elim
+
+/-- **Producer creation** -/
+theorem C13_producer_create {σ} (env : Env σ) (b : ProducerBuilder) : Safe (b.create env) := by
+  intro world
+  unfold ProducerBuilder.create
+  simp only []
+  split
+  · trivial
+  · split
+    · trivial
+    · trivial
+    · rename_i w s hms
+      refine (Safe.not_panic ?_ hms).elim
+      split
+      · simp only [Bool.false_eq_true, if_false]; exact Safe.pure _
+      · simp only [if_true]; exact C13_load_metadata_all env
+    · rename_i w hms
+      refine (Safe.not_diverge ?_ hms).elim
+      split
+      · simp only [Bool.false_eq_true, if_false]; exact Safe.pure _
+      · simp only [if_true]; exact C13_load_metadata_all env
+
+/-- **Producer::send_all** -/
+theorem C13_send_all {σ} (env : Env σ) (recs : List Record) : Safe (sendAll env recs) := by
+  intro w
+  unfold sendAll
+  simp only []
+  have h : Safe (internalProduce env w.prod.acks w.prod.ackTimeout
+      (partitionLazy w.prod.client.st w.prod.partitions w.prod.cntr recs).1) := by
+    -- `produce_messages` without the duration conversion
+    unfold internalProduce
+    refine Safe.bind Safe.nextCorr fun corr => Safe.bind Safe.getClient fun c => ?_
+    split
+    · exact Safe.fail _
+    · split
+      · exact Safe.bind (Safe.forHosts env _ (fun h a => Safe.bind (Safe.getConn env h) fun _ => Safe.sendRequest env h _) _ _) fun _ => Safe.pure _
+      · exact Safe.bind (Safe.forHosts env _ (fun h a => Safe.sendReceive env h _ _) _ _) fun rs => Safe.pure _
+  have := h ⟨w.world, w.prod.client⟩
+  cases hms : internalProduce env w.prod.acks w.prod.ackTimeout
+      (partitionLazy w.prod.client.st w.prod.partitions w.prod.cntr recs).1 ⟨w.world, w.prod.client⟩ with
+  | mk w' o => rw [hms] at this; exact this
+
+/-- **Producer::send**: any produce reply — no topic, several topics, no or several partitions — is a value or an error -/
+theorem C13_send {σ} (env : Env σ) (r : Record) : Safe (send env r) := by
+  unfold send
+  refine Safe.bind (C13_send_all env [r]) fun rs => Safe.bind Safe.get fun w => ?_
+  split
+  · exact Safe.pure _
+  · split
+    · split
+      · split
+        · exact Safe.pure _
+        · exact Safe.fail _
+      · exact Safe.fail _
+    · exact Safe.fail _
+
 end Kafka.Props.C13
